@@ -23,7 +23,8 @@ FUNCTIONS = [
 ]
 BOUNDS = {"data": "none: all positions 0..1024-len, all block contents, all labels / booleans / 0..255 / 0..65535 / "
                   "hh:mm with h,m in 0..255, decimal string forms of numbers",
-          "temperature values": "raw-word round trip and decimal inputs are decided in IEEE-754 doubles (shared with C14)",
+          "temperature values": "every stored word 0..65535 in both units: the value read, written back through either write "
+                                "path, stores the same word (IEEE-754 doubles, z3 FP theory); decimal inputs are C14's",
           "thorough": "additionally, for every pair of items of one table whose bytes overlap (grouped by the two signatures "
                       "and their relative position): writing one leaves the other's decoded raw value unchanged"}
 ASSUMPTIONS = [
@@ -33,7 +34,7 @@ ASSUMPTIONS = [
     "items sharing a signature (class, type, width, bit position, labels, MaxItems, mask, RW) behave identically "
     "up to position; the position itself is symbolic",
 ]
-SITES = ["rt.*", "ro.*", "pos.*"]
+SITES = ["rt.*", "ro.*", "pos.*", "enc.*"]
 
 
 class _S:
@@ -374,3 +375,14 @@ def units(tier):
     mods = sorted({m for ms in sigs.values() for (m, _, _) in ms})
     for m in mods:
         yield Unit(f"pos.{m}", positions(m), validate=False)
+    # temperature items: value read -> written back gives the same stored word, for all 65 536 words and both units,
+    # on both write paths, in IEEE-754 doubles (the lemma units of C14 on one table pair)
+    from . import c14
+    lay = c14.layouts()
+    for key, (plat, c, l) in sorted(lay.items(), key=lambda kv: kv[1]):
+        d = dict(key)
+        if all(k in d for k in ("TempUnits", "SetpointG")):
+            for async_ in (False, True):
+                yield Unit(f"temperature.{'async' if async_ else 'sync'}.{plat}-{c}-{l}",
+                           c14.enc_dec(plat, c, l, "SetpointG", async_), query_timeout_ms=600000, tactic="qffpbv")
+            break
